@@ -240,11 +240,18 @@ pub fn eval_node<F: FnMut(&GraphColoredVertices, &str)>(
                     // get a domain set from EvalContext, can use unwrap as it is previously checked
                     let domain_set = eval_context.domain_raw_sets.get(domain.as_str()).unwrap();
 
-                    // check edge case of an empty domain (in that case we cannot restrict the domain,
-                    // there would be an error)
+                    // translate the domain to the restriction on the variable's symbolic copy
+                    let var_domain = compute_valid_domain_for_var(graph, domain_set, &var);
+
+                    // check edge case of the domain being empty in the current universe (in that case
+                    // we cannot restrict the graph, there would be an error)
                     // (the shortcut must be a value of this branch, not an early return, so that
                     // the variable's domain is removed from the eval context below)
-                    if domain_set.is_empty() {
+                    if graph
+                        .unit_colored_vertices()
+                        .intersect(&var_domain)
+                        .is_empty()
+                    {
                         match op {
                             HybridOp::Bind => graph.mk_empty_colored_vertices(),
                             HybridOp::Exists => graph.mk_empty_colored_vertices(),
@@ -253,7 +260,6 @@ pub fn eval_node<F: FnMut(&GraphColoredVertices, &str)>(
                         }
                     } else {
                         // restrict the var domain in unit BDD of the graph
-                        let var_domain = compute_valid_domain_for_var(graph, domain_set, &var);
                         let restricted_graph = restrict_stg_unit_bdd(graph, &var_domain);
 
                         let child_eval = eval_node(
